@@ -43,7 +43,9 @@ def subspaces(tier):
     out += C.structure_subspaces(s3 + [(2, 2)], 2, False, mode="solved-b")
     out += C.structure_subspaces(D.shapes(3, 3), 2, True, only_flexible=True, mode="solved-b")
     s5 = [s for s in D.shapes(3, 5) if sum(s) == 5]
+    out += C.structure_subspaces(s5, 3, False, canonical=True, mode="structure")
     out += C.structure_subspaces(s5, 3, False, canonical=True, mode="solved-a")
+    out += C.structure_subspaces(s5, 2, False, canonical=True, mode="solved-b")
     out += C.structure_subspaces([s for s in s4 if sum(s) == 4], 2, False, mode="solved-b")
     if tier == "thorough":
         out += C.structure_subspaces(s5, 3, False, mode="structure")
